@@ -463,7 +463,7 @@ impl Prop for C19 {
                 v.push(json!({"kind": "exh", "prefix": p, "first": first, "maxlen": maxlen}));
             }
         }
-        let batches = tier.pick(48, 200);
+        let batches = tier.pick(48, 1600);
         for b in 0..batches {
             v.push(json!({"kind": "grammar", "seed": seed, "batch": b, "n": 20_000}));
             v.push(json!({"kind": "unicode", "seed": seed, "batch": b, "n": 20_000}));
